@@ -212,6 +212,23 @@ void enrichUnits(GtModel &g, Src &src, unsigned aliasMode, bool twoLevel, unsign
                 us.name = std::string(k == 0 ? "u_" : "v_") + su;
                 UnitSpec c;
                 c.ref = su;
+                if (src.flip(70)) {
+                    // a chain of plain aliases: u_volt = w_volt, w_volt = volt (all equal: what de-duplication by equivalence
+                    // has to cope with when the levels are imported from different files)
+                    UnitsSpec w;
+                    w.name = std::string(k == 0 ? "w_" : "x_") + su;
+                    if (src.flip(50)) {
+                        UnitsSpec y;
+                        y.name = std::string(k == 0 ? "y_" : "z_") + su;
+                        y.units.push_back(c);
+                        s.units.push_back(y);
+                        c.ref = y.name;
+                    }
+                    w.units.push_back(c);
+                    s.units.push_back(w);
+                    c.ref = w.name;
+                    f.classes.insert("ref:alias-of-alias-units");
+                }
                 us.units.push_back(c);
                 s.units.push_back(us);
                 f.classes.insert("ref:aliased-standard-units");
@@ -233,7 +250,7 @@ void enrichUnits(GtModel &g, Src &src, unsigned aliasMode, bool twoLevel, unsign
             if (!ok) {
                 continue;
             }
-            static const std::vector<int> inner = {-1, 1, 2, 3, -2, -3};
+            static const std::vector<int> inner = {-1, 0, 1, 2, 3, -2, -3, 0};
             int p2 = src.pick(inner);
             int p1 = p - p2;
             UnitsSpec b;
@@ -241,6 +258,16 @@ void enrichUnits(GtModel &g, Src &src, unsigned aliasMode, bool twoLevel, unsign
             UnitSpec bc;
             bc.ref = s.units[i].units[0].ref;
             bc.prefix = prefixText(p2, src.flip(50));
+            if (src.flip(50)) {
+                // a third level: b_X = c_X (same size), c_X = 10^p2 * standard unit
+                UnitsSpec cu;
+                cu.name = "c_" + s.units[i].name;
+                cu.units.push_back(bc);
+                s.units.push_back(cu);
+                bc = UnitSpec();
+                bc.ref = cu.name;
+                f.classes.insert("ref:three-level-units");
+            }
             b.units.push_back(bc);
             s.units[i].units[0].ref = b.name;
             s.units[i].units[0].prefix = prefixText(p1, src.flip(50));
@@ -531,6 +558,7 @@ struct Splitter
     bool allowDepRename = false;
     bool allowAliasClash = false;
     bool allowDepImport = false;
+    bool allowNameCapture = false;
     int idSerial = 0;
 
     Splitter(Src &s, C06Forest &fo, const C06Options &o)
@@ -696,7 +724,7 @@ struct Splitter
             unsigned k = static_cast<unsigned>(src.below(10));
             if (k >= 5 && isDep.count(u) != 0 && !allowDepRename) {
                 k = 0;
-                ++f.counters["excluded:C06.valid|units-child-reference"];
+                ++f.counters["shape-not-taken:C06.valid|units-child-reference"];
             }
             if (k >= 8) {
                 n = u + "_x";
@@ -714,7 +742,7 @@ struct Splitter
                                 chain = chain || redKey(fu.reduce(m, v)) == redKey(fu.reduce(mm, x.name));
                             }
                             if (chain && !allowAliasClash) {
-                                ++f.counters["excluded:C06.units|*|units-renamed-in-sequence"];
+                                ++f.counters["shape-not-taken:C06.units|*|units-renamed-in-sequence"];
                                 continue;
                             }
                             cands.push_back(x.name);
@@ -734,8 +762,11 @@ struct Splitter
                 if (idx >= 0 && old.units[static_cast<size_t>(idx)].import >= 0 && n != u) {
                     int t = f.models[static_cast<size_t>(m)].importTarget[static_cast<size_t>(old.units[static_cast<size_t>(idx)].import)];
                     if (findUnits(f.models[static_cast<size_t>(t)].spec, n) >= 0) {
+                        f.classes.insert("plan:imported-units-named-like-a-units-of-the-library");
+                    }
+                    if (findUnits(f.models[static_cast<size_t>(t)].spec, n) >= 0 && !allowNameCapture) {
                         n = u;
-                        ++f.counters["excluded:imported-units-named-like-a-units-of-the-library"];
+                        ++f.counters["shape-not-taken:imported-units-named-like-a-units-of-the-library"];
                     }
                 }
             }
@@ -892,7 +923,7 @@ struct Splitter
                     }
                 }
                 if (connectedTarget) {
-                    ++f.counters["excluded:C06.equivalences|missing|chain-element-without-placeholder"];
+                    ++f.counters["shape-not-taken:C06.equivalences|missing|chain-element-without-placeholder"];
                 } else {
                     ok.push_back(e);
                 }
@@ -937,7 +968,7 @@ struct Splitter
         // import element as if they came from the library: it renames them, rebinds the units of their variables and cn
         // elements to empty units, skips every second one, and dereferences a null pointer when they use imported units
         if (!allowKept && !keptPos.empty()) {
-            f.counters["excluded:C06.*|importer-children-below-import-element"] += static_cast<long>(keptPos.size());
+            f.counters["shape-not-taken:C06.*|importer-children-below-import-element"] += static_cast<long>(keptPos.size());
             keptPos.clear();
         }
         if (!allowKeptImportedUnits) {
@@ -957,7 +988,7 @@ struct Splitter
                 }
                 if (usesImported) {
                     keptPos.erase(p);
-                    ++f.counters["excluded:C06.crash|importer-children-use-imported-units"];
+                    ++f.counters["shape-not-taken:C06.crash|importer-children-use-imported-units"];
                 }
             }
         }
@@ -1174,7 +1205,7 @@ struct Splitter
                     } else {
                         for (size_t v = 0; v < cs.vars.size(); ++v) {
                             if (crossing.insert(static_cast<int>(v)).second) {
-                                ++f.counters["excluded:C06.equivalences|missing|chain-element-without-placeholder"];
+                                ++f.counters["shape-not-taken:C06.equivalences|missing|chain-element-without-placeholder"];
                             }
                         }
                     }
@@ -1259,16 +1290,16 @@ struct Splitter
         return true;
     }
 
-    bool cutUnits(int m)
+    bool cutUnits(int m, const std::string &forced = "")
     {
         const ModelSpec old = f.models[static_cast<size_t>(m)].spec;
         std::vector<int> elig;
         for (size_t i = 0; i < old.units.size(); ++i) {
-            if (old.units[i].import < 0) {
+            if (old.units[i].import < 0 && (forced.empty() || old.units[i].name == forced)) {
                 elig.push_back(static_cast<int>(i));
             }
         }
-        if (!allowDepImport) {
+        if (!allowDepImport && forced.empty()) {
             // known finding excluded by construction: units that other units of the model refer to do not become imports (the
             // flat model gets two units of that name when the referring units are imported elsewhere)
             std::set<std::string> deps;
@@ -1280,19 +1311,19 @@ struct Splitter
             std::vector<int> ok;
             for (int e : elig) {
                 if (deps.count(old.units[static_cast<size_t>(e)].name) != 0) {
-                    ++f.counters["excluded:C06.valid|units-name-not-unique|library-units-dependency-is-an-import"];
+                    ++f.counters["shape-not-taken:C06.valid|units-name-not-unique|library-units-dependency-is-an-import"];
                 } else {
                     ok.push_back(e);
                 }
             }
             elig = ok;
         }
-        if (!allowKeptImportedUnits) {
+        if (!allowKeptImportedUnits && forced.empty()) {
             std::set<std::string> below = unitsUsedBelowImports(old);
             std::vector<int> ok;
             for (int e : elig) {
                 if (below.count(old.units[static_cast<size_t>(e)].name) != 0) {
-                    ++f.counters["excluded:C06.crash|importer-children-use-imported-units"];
+                    ++f.counters["shape-not-taken:C06.crash|importer-children-use-imported-units"];
                 } else {
                     ok.push_back(e);
                 }
@@ -1302,12 +1333,33 @@ struct Splitter
         if (elig.empty()) {
             return false;
         }
-        // cn-only units first in the choice order (value 0 picks one when there is one)
+        // choice order (value 0 picks the first): units defined over two further levels of user units first (they make nested
+        // chains of imported units), then the cn-only units
+        auto levels = [&](int ui) {
+            std::function<int(const std::string &, int)> depth = [&](const std::string &n, int guard) -> int {
+                int idx = findUnits(old, n);
+                if (idx < 0 || guard > 8 || old.units[static_cast<size_t>(idx)].import >= 0) {
+                    return 0;
+                }
+                int best = 0;
+                for (const auto &ch : old.units[static_cast<size_t>(idx)].units) {
+                    if (isUserUnits(ch.ref)) {
+                        best = std::max(best, 1 + depth(ch.ref, guard + 1));
+                    }
+                }
+                return best;
+            };
+            return depth(old.units[static_cast<size_t>(ui)].name, 0);
+        };
         std::stable_sort(elig.begin(), elig.end(), [&](int a, int b) {
+            bool da = levels(a) >= 2, db = levels(b) >= 2;
+            if (da != db) {
+                return da;
+            }
             bool ca = old.units[static_cast<size_t>(a)].name.compare(0, 3, "cnu") == 0, cb = old.units[static_cast<size_t>(b)].name.compare(0, 3, "cnu") == 0;
             return ca && !cb;
         });
-        const int ui = elig[src.below(elig.size())];
+        const int ui = src.flip(50) ? elig[0] : elig[src.below(elig.size())];
         const std::string u = old.units[static_cast<size_t>(ui)].name;
         std::set<std::string> need {u};
         closeUnits(old, need);
@@ -1346,6 +1398,29 @@ struct Splitter
             }
         }
         rebuildEdges();
+        // A nested chain of imported units: one of the units the moved definition refers to, itself defined by further user
+        // units, becomes an import of the library in turn (main -> j: u = {d}; j -> k: d = {e}; e local in k).
+        if (forced.empty() && allowDepImport && src.flip(85)) {
+            const ModelSpec &ls = f.models[static_cast<size_t>(j)].spec;
+            int li = findUnits(ls, nm[u]);
+            std::string dep;
+            if (li >= 0) {
+                for (const auto &ch : ls.units[static_cast<size_t>(li)].units) {
+                    int di = findUnits(ls, ch.ref);
+                    if (di < 0 || ls.units[static_cast<size_t>(di)].import >= 0) {
+                        continue;
+                    }
+                    for (const auto &ch2 : ls.units[static_cast<size_t>(di)].units) {
+                        if (isUserUnits(ch2.ref)) {
+                            dep = ch.ref;
+                        }
+                    }
+                }
+            }
+            if (!dep.empty() && cutUnits(j, dep)) {
+                f.classes.insert("plan:nested-imported-units-chain");
+            }
+        }
         return true;
     }
 
@@ -1517,7 +1592,8 @@ C06Forest c06GenForest(Src &src, const C06Options &opt)
     const bool ids = opt.allowIds && src.flip(10);
     const bool leaveGap = src.flip(opt.chainGapPct);
     const bool allowKept = src.flip(opt.keptChildrenPct);
-    const bool allowKeptImportedUnits = allowKept && src.flip(30);
+    const bool allowKeptImportedUnits = allowKept && src.flip(50);
+    const bool allowNameCapture = src.flip(30);
     const bool allowDepRename = src.flip(opt.chainGapPct);
     const bool allowAliasClash = src.flip(opt.chainGapPct);
     const bool allowDepImport = src.flip(opt.chainGapPct);
@@ -1570,6 +1646,7 @@ C06Forest c06GenForest(Src &src, const C06Options &opt)
     sp.allowDepRename = allowDepRename;
     sp.allowAliasClash = allowAliasClash;
     sp.allowDepImport = allowDepImport;
+    sp.allowNameCapture = allowNameCapture;
     if (ids) {
         f.classes.insert("library-components-with-ids");
     }
@@ -1788,6 +1865,36 @@ C06Forest c06GenForest(Src &src, const C06Options &opt)
     }
     if (f.unitsDependencyKnownElsewhere) {
         f.classes.insert("units-dependency-defined-elsewhere-under-another-name");
+    }
+    for (size_t a = 0; a < f.models.size(); ++a) {
+        for (const auto &u : f.models[a].spec.units) {
+            if (u.import < 0) {
+                continue;
+            }
+            // a -> b: the imported definition refers to units that b imports from c, whose definition refers to local units
+            size_t b = static_cast<size_t>(f.models[a].importTarget[static_cast<size_t>(u.import)]);
+            int bi = findUnits(f.models[b].spec, u.importRef);
+            if (bi < 0) {
+                continue;
+            }
+            for (const auto &ch : f.models[b].spec.units[static_cast<size_t>(bi)].units) {
+                int di = findUnits(f.models[b].spec, ch.ref);
+                if (di < 0 || f.models[b].spec.units[static_cast<size_t>(di)].import < 0) {
+                    continue;
+                }
+                const UnitsSpec &d = f.models[b].spec.units[static_cast<size_t>(di)];
+                size_t cm = static_cast<size_t>(f.models[b].importTarget[static_cast<size_t>(d.import)]);
+                int ci = findUnits(f.models[cm].spec, d.importRef);
+                if (ci < 0) {
+                    continue;
+                }
+                for (const auto &ch2 : f.models[cm].spec.units[static_cast<size_t>(ci)].units) {
+                    if (isUserUnits(ch2.ref)) {
+                        f.classes.insert("nested-imported-units-chain-with-local-child");
+                    }
+                }
+            }
+        }
     }
     if (f.libraryAliasNamedLikeOtherUnits) {
         f.classes.insert("units-renamed-in-sequence");
@@ -2114,6 +2221,23 @@ std::string c06CrashToken(const std::string &diag)
     }
     // UBSan names the source file on the error line whatever the options are (a stack trace is printed only on request), so
     // that is the localisation for UBSan reports; ASan reports always carry a stack: innermost libcellml frame.
+    if (kind.find("stack-overflow") != std::string::npos) {
+        // the innermost frame is wherever the stack ran out: name the libcellml function that recurses (most frequent frame)
+        std::map<std::string, int> freq;
+        for (size_t q = diag.find(" in libcellml::"); q != std::string::npos; q = diag.find(" in libcellml::", q + 1)) {
+            size_t e = diag.find_first_of("([ \n", q + 4);
+            ++freq[diag.substr(q + 4, e - (q + 4))];
+        }
+        std::string best = "?";
+        int n = 0;
+        for (const auto &fr : freq) {
+            if (fr.second > n) {
+                n = fr.second;
+                best = fr.first;
+            }
+        }
+        return kind + "|" + best;
+    }
     std::string frame = "?";
     size_t re = diag.find("runtime error: ");
     if (kind.compare(0, 6, "ubsan:") == 0 && re != std::string::npos) {
